@@ -321,11 +321,17 @@ def r5_walker_wiring(ctx):
             if (r, m) in (('self', '_check_loop_usage'), ('self.counter', 'increment'), ('self', '_flush_mandatory_segs')):
                 order.append((n.lineno, m, norm(n.args[0]) if n.args else ''))
     order = [(m, a) for _, m, a in sorted(order)]
-    ok = order == [('_check_loop_usage', 'loop_node'), ('increment', 'first_child_node.x12path'), ('_flush_mandatory_segs', 'errh')]
+    # the segment counted is the loop's first segment, whatever the local holding it is called
+    first_names = {path_of(st.targets[0]) for st in ast.walk(fn) if isinstance(st, ast.Assign) and isinstance(st.value, ast.Call)
+                   and A.call_target(st.value) == ('loop_node', 'get_first_seg')}
+    order = [(m, 'loop_node.get_first_seg().x12path' if m == 'increment' and a.endswith('.x12path') and a[:-8] in first_names else a) for m, a in order]
+    ok = order == [('_check_loop_usage', 'loop_node'), ('increment', 'loop_node.get_first_seg().x12path'), ('_flush_mandatory_segs', 'errh')]
     yield Ob('map_walker:walk_tree._goto_seg_match counts the loop, then its first segment, then flushes pending errors', ok, ctx.floc(fn), '' if ok else 'order %s' % order)
     # --- walk: matched plain segment is counted before its usage check; search covers positions >= current
     fn = ctx.func('map_walker', 'walk_tree.walk')
-    comps = [n for n in ast.walk(fn) if isinstance(n, ast.ListComp) and 'sorted(node.pos_map)' in norm(n, 200)]
+    # (with the helpers a refactoring split off from it, where the normal form could not inline them)
+    fn_reg = ast.Module(body=ctx.region('map_walker', 'walk_tree.walk'), type_ignores=[])
+    comps = [n for n in ast.walk(fn_reg) if isinstance(n, (ast.ListComp, ast.GeneratorExp)) and 'node.pos_map' in norm(n.generators[0].iter, 200)]
     ok = False
     if len(comps) == 1 and comps[0].generators[0].ifs:
         cond = comps[0].generators[0].ifs[0]
@@ -336,12 +342,12 @@ def r5_walker_wiring(ctx):
             ok = False
     yield Ob('map_walker:walk_tree.walk searches positions >= the current one (same position included)', ok, ctx.floc(fn),
              '' if ok else 'position filter changed: repeats of the current segment or later siblings would not be found')
-    txt = ast.unparse(fn)
+    txt = ast.unparse(fn_reg)
     i1, i2, i3 = txt.find('self.counter.increment(child.x12path)'), txt.find('self._check_seg_usage(child'), txt.find('self._flush_mandatory_segs(errh, child.pos)')
     ok = 0 <= i1 < i2 < i3
     yield Ob('map_walker:walk_tree.walk counts a matched segment, checks its usage, then flushes pending errors', ok, ctx.floc(fn), '' if ok else 'statement order changed')
     # mandatory-missing condition
-    conds = [n for n in ast.walk(fn) if isinstance(n, ast.If) and "child.usage == 'R'" in norm(n.test, 200) and 'get_count' in norm(n.test, 200)]
+    conds = [n for n in ast.walk(fn_reg) if isinstance(n, ast.If) and "child.usage == 'R'" in norm(n.test, 200) and 'get_count' in norm(n.test, 200)]
     ok = len(conds) == 1
     if ok:
         bad = []
@@ -364,8 +370,23 @@ def r5_walker_wiring(ctx):
     yield Ob('map_walker:walk_tree._is_loop_match a skipped loop is pending-missing iff required and not yet seen', ok, ctx.floc(fn), '' if ok else 'condition changed')
     # flush: pending errors at the position just matched are kept, the others reported
     fn = ctx.func('map_walker', 'walk_tree._flush_mandatory_segs')
-    t = [n for n in ast.walk(fn) if isinstance(n, ast.If) and 'seg_node.pos' in norm(n.test)]
-    ok = len(t) == 1 and [bool(A.ev(t[0].test, {'seg_node.pos': a, 'cur_pos': 20})) for a in (10, 20, 30)] == [True, False, True]
+    # (the pending entry may be unpacked into names or indexed: the test compares the `.pos` of its node with cur_pos)
+    t = []
+    for n in ast.walk(fn):
+        if isinstance(n, ast.If) and 'cur_pos' in norm(n.test):
+            pp = sorted({ast.unparse(x) for x in ast.walk(n.test) if isinstance(x, ast.Attribute) and x.attr == 'pos'})
+            if len(pp) == 1:
+                t.append((n, pp[0]))
+    ok = False
+    if len(t) == 1:
+        reports = [c for c in A.calls_in(ast.Module(body=t[0][0].body, type_ignores=[])) if A.call_target(c)[1] == 'seg_error']
+        try:
+            tv = A.abstract(t[0][0].test, {t[0][1]: '__pos'})
+            vals = [bool(A.ev(tv, {'__pos': a, 'cur_pos': 20})) for a in (10, 20, 30)]
+        except A.NotClosed:
+            vals = None
+        # the branch that reports is taken for the other positions only
+        ok = vals == ([True, False, True] if reports else [False, True, False])
     yield Ob('map_walker:walk_tree._flush_mandatory_segs reports pending errors of other positions only', ok, ctx.floc(fn), '' if ok else 'flush condition changed')
     # --- limits as the map declares them
     for cls, attr in (('segment_if', 'max_use'), ('loop_if', 'repeat')):
@@ -375,7 +396,9 @@ def r5_walker_wiring(ctx):
         yield Ob('map_if:%s.get_max_repeat: absent or ">1" is unlimited, otherwise the declared integer' % cls, ok, ctx.floc(fn), '' if ok else 'limit parsing changed')
     # --- the counter itself
     fn = ctx.func('nodeCounter', 'NodeCounter.get_count')
-    ok = any(isinstance(n, ast.Return) and A.const(n.value) == 0 for n in ast.walk(fn))
+    ok = any(isinstance(n, ast.Return) and (A.const(n.value) == 0 or (
+        isinstance(n.value, ast.Call) and A.call_target(n.value) == ('self._dict', 'get') and len(n.value.args) == 2 and A.const(n.value.args[1]) == 0))
+        for n in ast.walk(fn))
     yield Ob('nodeCounter:NodeCounter.get_count is 0 for an unseen path', ok, ctx.floc(fn), '' if ok else 'default changed')
     fn = ctx.func('nodeCounter', 'NodeCounter.increment')
     txt = ast.unparse(fn)
@@ -385,6 +408,22 @@ def r5_walker_wiring(ctx):
     fn = ctx.func('nodeCounter', 'NodeCounter.reset_to_node')
     txt = A.alpha_text(fn)
     ok = 'L2 = [L3 for L3 in self._dict if L1.is_child_path(L3.format())]' in txt and 'for L4 in L2:\n        del self._dict[L4]' in txt
+    if not ok:
+        # the same with the list inlined into the loop header and/or the bound method held in a local:
+        #   for k in [k for k in self._dict if <node path>.is_child_path(k.format())]: del self._dict[k]
+        alias = {path_of(st.targets[0]) for st in ast.walk(fn) if isinstance(st, ast.Assign) and isinstance(st.value, ast.Attribute)
+                 and st.value.attr == 'is_child_path' and 'xpath' in norm(st.value)}
+        dels = [d for d in ast.walk(fn) if isinstance(d, ast.Delete)]
+        loops = [lp for lp in ast.walk(fn) if isinstance(lp, ast.For) and isinstance(lp.iter, ast.ListComp) and isinstance(lp.target, ast.Name)
+                 and path_of(lp.iter.generators[0].iter) == 'self._dict' and len(lp.iter.generators[0].ifs) == 1
+                 and isinstance(lp.iter.elt, ast.Name) and lp.iter.elt.id == path_of(lp.iter.generators[0].target)]
+        if len(loops) == 1 and len(dels) == 1 and loops[0].body == [dels[0]] and norm(dels[0]) == 'del self._dict[%s]' % loops[0].target.id:
+            c = loops[0].iter.generators[0].ifs[0]
+            v = loops[0].iter.elt.id
+            if isinstance(c, ast.Call) and len(c.args) == 1 and norm(c.args[0]) == '%s.format()' % v and (
+                    (isinstance(c.func, ast.Name) and c.func.id in alias) or
+                    (isinstance(c.func, ast.Attribute) and c.func.attr == 'is_child_path' and 'xpath' in norm(c.func.value))):
+                ok = True
     require_idiom(ok, 'c02.py:381')
     yield Ob('nodeCounter:NodeCounter.reset_to_node drops exactly the counts below the node', ok, ctx.floc(fn), '' if ok else 'reset changed')
     fn = ctx.func('path', 'X12Path.is_child_path')
